@@ -155,5 +155,44 @@ func c04Scenarios() []c04Scenario {
 		}
 		return b
 	}())
+	// mdat with a 64-bit largesize that makes the lazy decoder's relative seek (size - header length, as int64) go
+	// BACKWARDS onto the start of an earlier top-level box: 2^64 - (distance back to that box)
+	backSeek := func(name string, file []byte) {
+		var starts []int
+		pos := 0
+		for pos+8 <= len(file) {
+			sz := int(binary.BigEndian.Uint32(file[pos:]))
+			if string(file[pos+4:pos+8]) == "mdat" {
+				for _, q := range starts {
+					hdr := make([]byte, 16)
+					binary.BigEndian.PutUint32(hdr, 1)
+					copy(hdr[4:], "mdat")
+					binary.BigEndian.PutUint64(hdr[8:], uint64(0)-uint64(pos-q))
+					add(fmt.Sprintf("%s: mdat largesize seeking back %d bytes onto an earlier box", name, pos-q), c04Cat(file[:pos], hdr, file[pos+8:]))
+				}
+				// ... and onto itself / just behind its own header
+				for _, v := range []uint64{^uint64(0), ^uint64(0) - 15, 1 << 63, 1<<63 + 16} {
+					hdr := make([]byte, 16)
+					binary.BigEndian.PutUint32(hdr, 1)
+					copy(hdr[4:], "mdat")
+					binary.BigEndian.PutUint64(hdr[8:], v)
+					add(fmt.Sprintf("%s: mdat largesize %#x", name, v), c04Cat(file[:pos], hdr, file[pos+8:]))
+				}
+				break
+			}
+			if sz < 8 || pos+sz > len(file) {
+				break
+			}
+			starts = append(starts, pos)
+			pos += sz
+		}
+	}
+	backSeek("synthetic segment", c04Cat(box("styp", []byte("msdh\x00\x00\x00\x00msdh")), box("moof", c04Cat(mfhd, box("traf", c04Cat(tfhd, trun2)))), mdat))
+	if seg := readRepo("mp4/testdata/1.m4s"); len(seg) > 0 && len(seg) < 1<<20 {
+		backSeek("mp4/testdata/1.m4s", seg)
+	}
+	if len(initSeg) > 0 {
+		backSeek("init + fragment", c04Cat(initSeg, box("moof", c04Cat(mfhd, box("traf", c04Cat(tfhd, trun2)))), mdat))
+	}
 	return out
 }
